@@ -121,6 +121,7 @@ class SharedMemoryFileBufferedCollection(FileBufferedCollection):
             else:
                 # If the contents have not been changed since the initial read,
                 # we don't need to rewrite it.
+                wrote = False
                 try:
                     # Validate that the file hasn't been changed by
                     # something else.
@@ -132,6 +133,7 @@ class SharedMemoryFileBufferedCollection(FileBufferedCollection):
                         # bound to the same file changed it.
                         self._data = cached_data["contents"]
                         self._save_to_resource()
+                        wrote = True
                 finally:
                     # Whether or not an error was raised, the cache must be
                     # cleared to ensure a valid final buffer state, unless
@@ -148,7 +150,13 @@ class SharedMemoryFileBufferedCollection(FileBufferedCollection):
                         # another (possibly forced) flush afterwards that will
                         # appear invalid if the metadata isn't updated to the
                         # metadata after the current flush.
-                        cached_data["metadata"] = self._get_file_metadata()
+                        # Only our own write changes what the file looks like. If
+                        # nothing was written (unmodified entry, or a conflict was
+                        # detected) the stored metadata must keep describing the
+                        # file as it was when it entered the buffer, so that a
+                        # change made by someone else stays detectable.
+                        if wrote:
+                            cached_data["metadata"] = self._get_file_metadata()
                         cached_data["modified"] = False
         else:
             # If this object is still buffered _and_ this wasn't a force flush,
